@@ -144,12 +144,13 @@ def upper_bounds(path, t):
     out = []
     for c in path.conds:
         ct = c[0]
-        if len(c) < 3 or c[1] != "==" or c[2] not in (0, 1) or not isinstance(ct, tuple) or ct[0] != "bin":
+        tv = U.cond_truth(c)
+        if tv is None or not isinstance(ct, tuple) or ct[0] != "bin":
             continue
         op = ct[1]
         if op not in ("Lt", "Le", "Gt", "Ge", "Eq"):
             continue
-        if c[2] == 0:
+        if tv == 0:
             op = {"Lt": "Ge", "Le": "Gt", "Gt": "Le", "Ge": "Lt", "Eq": None}[op]
             if op is None:
                 continue
